@@ -766,6 +766,87 @@ pub fn replay_into(v: &Value, report: &mut Report) {
     }
 }
 
+// ---------------------------------------------------------------- semantic layer (search only)
+
+/// require strings in real analysed files: the module `parse_require_module_info` finds (what go-to-definition
+/// on the require string uses) and the inferred type of the required value must be those of the file the
+/// independent resolver selects; after removing that file (and re-submitting the requiring file) likewise.
+pub fn semantic_oracle(rng: &mut Rng, n: usize, report: &mut Report) {
+    use crate::analysis::{new_analysis, uri_of};
+    use emmylua_code_analysis::{RenderLevel, humanize_type, parse_require_module_info};
+    use emmylua_parser::{LuaAstNode, LuaLocalName, LuaAstToken};
+    for _ in 0..n {
+        let cfg = Cfg { fuzzy: true, patterns: vec!["?.lua".into(), "?/init.lua".into()], wss: vec![Ws { root: "/ws".into(), id: 1, pkg: None }], rules: vec![] };
+        let nf = rng.range(2, 5);
+        let mut paths: Vec<String> = Vec::new();
+        while paths.len() < nf {
+            let mut p = String::new();
+            for _ in 0..rng.below(3) {
+                p.push_str(*rng.pick(&["a", "b", "lib"]));
+                p.push('/');
+            }
+            p.push_str(*rng.pick(&["a", "b", "m"]));
+            p.push_str(*rng.pick(&[".lua", ".lua", "/init.lua"]));
+            if !paths.contains(&p) {
+                paths.push(p);
+            }
+        }
+        let mut names: Vec<String> = Vec::new();
+        let mut r = RefState { cfg: &cfg, live: Vec::new() };
+        let mut a = new_analysis();
+        for (k, p) in paths.iter().enumerate() {
+            a.update_file_by_uri(&uri_of(p), Some(format!("local M = {{}}\nM.value = {}\nreturn M\n", 100 + k)));
+            r.add(k as u32, &format!("/ws/{p}"));
+        }
+        for e in &r.live {
+            names.push(e.full.clone());
+        }
+        let qs = gen_queries(rng, &names, 5);
+        let victim = rng.below(nf);
+        for round in 0..2 {
+            if round == 1 {
+                a.remove_file_by_uri(&uri_of(&paths[victim]));
+                r.remove(victim as u32);
+            }
+            let main_text: String = qs.iter().enumerate().map(|(i, q)| format!("local r{i} = require({q:?})\n")).collect();
+            let Some(main_id) = a.update_file_by_uri(&uri_of("zz_main.lua"), Some(main_text.clone())) else { continue };
+            let Some(model) = a.compilation.get_semantic_model(main_id) else { continue };
+            let db = a.compilation.get_db();
+            let locals: Vec<LuaLocalName> = model.get_root().descendants::<LuaLocalName>().collect();
+            for (i, q) in qs.iter().enumerate() {
+                report.evaluations += 1;
+                report.count("semantic_require_queries");
+                let (exp, branch) = r.resolve(q);
+                let exp_file = exp.map(|e| e.file as usize);
+                let Some(ln) = locals.get(i) else { continue };
+                let Some(tok) = ln.get_name_token() else { continue };
+                let decl_id = emmylua_code_analysis::LuaDeclId::new(main_id, tok.get_position());
+                let got_file = db.get_decl_index().get_decl(&decl_id).and_then(|d| parse_require_module_info(&model, d)).and_then(|m| {
+                    let u = a.get_uri(m.file_id)?;
+                    paths.iter().position(|p| u.as_str().ends_with(&format!("/ws/{p}")))
+                });
+                let ty = model
+                    .get_semantic_info(rowan::NodeOrToken::Token(tok.syntax().clone()))
+                    .map(|i| humanize_type(db, &i.typ, RenderLevel::Detailed))
+                    .unwrap_or_default();
+                let mut bad = None;
+                if got_file != exp_file {
+                    bad = Some(format!("require({q:?}) in an analysed file resolves (parse_require_module_info) to {:?}, the reference resolver ({branch}) selects {:?}", got_file.map(|k| &paths[k]), exp_file.map(|k| &paths[k])));
+                } else if let Some(k) = exp_file {
+                    if !ty.contains(&format!("{}", 100 + k)) {
+                        bad = Some(format!("require({q:?}) resolves to {} but the inferred module type is {ty:?} (expected the table with value = {})", paths[k], 100 + k));
+                    } else {
+                        report.count("semantic_type_agrees");
+                    }
+                }
+                if let Some(what) = bad {
+                    report.oracle_failure(json!({"input": {"semantic": true, "paths": paths, "queries": qs, "removed": if round == 1 { Some(&paths[victim]) } else { None }}, "what": what, "class": Value::Null}));
+                }
+            }
+        }
+    }
+}
+
 // ---------------------------------------------------------------- run
 
 pub fn run(args: &Args, report: &mut Report) {
@@ -788,6 +869,7 @@ pub fn run(args: &Args, report: &mut Report) {
             cases.push(gen_case(&mut rng, 10));
         }
     }
+    semantic_oracle(&mut rng, if args.thorough() { 1500 } else { 150 }, report);
     report.rule = "workspace trees (1-3 roots incl. nested library roots and package imports, dirs over a 13-segment alphabet incl. non-ASCII and dotted names, init files, foreign extensions) x pattern sets (default, custom, duplicate, multi-?, catch-all) x moduleMap rule fragments x strict/fuzzy, with add / re-add / remove / hide histories and require strings derived from live and dead module names; a history is non-trivial when it has >= 2 simultaneously live modules and at least one query that resolves and one that does not; distinct by request line".into();
 
     let reqs: Vec<String> = cases.iter().map(request).collect();
